@@ -6,6 +6,7 @@ require (
 	github.com/alicebob/miniredis/v2 v2.34.0
 	github.com/anishathalye/porcupine v1.3.0
 	github.com/pelletier/go-toml/v2 v2.2.2
+	github.com/redis/go-redis/v9 v9.7.3
 	github.com/zeromicro/go-zero v0.0.0
 	go.etcd.io/etcd/api/v3 v3.5.15
 	go.etcd.io/etcd/client/v3 v3.5.15
@@ -54,7 +55,6 @@ require (
 	github.com/prometheus/client_model v0.6.1 // indirect
 	github.com/prometheus/common v0.62.0 // indirect
 	github.com/prometheus/procfs v0.15.1 // indirect
-	github.com/redis/go-redis/v9 v9.7.3 // indirect
 	github.com/spaolacci/murmur3 v1.1.0 // indirect
 	github.com/yuin/gopher-lua v1.1.1 // indirect
 	go.etcd.io/etcd/client/pkg/v3 v3.5.15 // indirect
